@@ -153,12 +153,10 @@ def analyse_errors(ctx):
         check_table(facts)
         funcs = [f for f in facts.defined_functions()]
         paths = {}
+        from ..csym import cached_paths, flush_paths
         for f in funcs:
-            g = get_ccfg(ctx, facts, f)
-            try:
-                paths[f] = feasible_paths(g, name=f, max_paths=30000)
-            except AnalysisError:
-                paths[f] = None
+            paths[f] = cached_paths(ctx, facts, f)
+        flush_paths(ctx)
         # always_err: every path ends with an exception pending.
         # raise_trait_error is the explicit table member: it sets the error
         # by calling handler.error(), which C01.no-falloff proves never
